@@ -98,5 +98,5 @@ def run(run):
                        "(all strings; counted after de-duplication)")
     run.assumptions += ["the recognizer is my transcription of the proposal's grammar (ParseISODateTime, ParseTemporalDurationString, ParseTimeZoneIdentifier); "
                         "generator <= recognizer and mutation rejection are model checked on it",
-                        "unasserted on purpose: U+2212 as a sign, month codes 00/>13, sub-minute forms for UtcOffset, calendar aliases, named zones other than UTC in ZonedDateTime values",
+                        "unasserted on purpose: U+2212 as a sign, month codes 00/>13, the minute value kept for a sub-minute UtcOffset string (acceptance is asserted), calendar aliases, named zones other than UTC in ZonedDateTime values",
                         "strings travel as arrays of 1-character strings, non-ASCII as U+XXXX tokens (ops_parse::chars_tok)"]
